@@ -63,6 +63,10 @@ ASSUMES = [
     "BasicRuntime is the observing subclass of vlib.h_idle (records the control-loop task of every (re)start per run id; "
     "forwards every call unchanged)",
     "workflow timeout=None and wait_for_event(timeout=None): timers pending at release are property C14, not this one",
+    "ob_inproc_reload_slow_store: the store is vlib.h_idle.make_slow_store, an ENVIRONMENT STUB for a store with I/O latency: "
+    "MemoryWorkflowStore in which ONE update_handler_status call, chosen by the solver, takes 1..LATMAX virtual seconds and takes "
+    "effect before or after that wait; release instants then depend on the latency, so only the latency-independent part of the "
+    "statement is asserted there (the run continues from where it stopped)",
     "tooling: logging disabled; under CrossHair repr() of concrete scalars is native and "
     "workflows.utils.get_steps_from_instance/_class run untraced (vlib.h_idle.install_speedups) — no effect on results",
     "DBOS stack: DBOSRuntime is replaced by an ENVIRONMENT STUB (BasicRuntime; a finished run's id becomes reusable on "
@@ -270,6 +274,64 @@ def ob_inproc_release_reload(wk: int, T: int, d1: int, d2: int, early: bool) -> 
                   settle=0)
     bad = _why(o, "inproc", T, REF[("inproc", wk)])
     _debug(f"inproc wk={wk} T={T} d1={d1} d2={d2} early={early}", bad)
+    return not bad
+
+
+KSLOW = 8          # status writes of one scenario are numbered 0..; k beyond the last one = no slow write
+LATMAX = B(2, 3)
+TSLOW = 2
+
+
+def _why_slow(o: Dict[str, Any], ref: Dict[str, Any]) -> List[str]:
+    """The latency-independent part of C36: whatever was released and reloaded, the run continues from where it stopped."""
+    bad: List[str] = []
+    if o["errors"] or o["loop_exceptions"]:
+        bad.append(f"errors {o['errors']} {o['loop_exceptions']}")
+    pre = sorted(o["pre_send"], key=lambda r: r["i"])
+    post = sorted(o["post_send"], key=lambda r: r["i"])
+    if len(pre) != 2 or len(post) != 2:
+        return bad + ["a send did not return"]
+    for p, q in zip(pre, post):
+        grew = q["loops"] - p["loops"]
+        if grew not in (0, 1):
+            bad.append(f"send {p['i']} started {grew} control loops")
+    if o["status"] != "completed" or o["result"] != ref["result"]:
+        bad.append(f"run did not complete like the uninterrupted one: final {o['status']}/{o['result']} vs completed/{ref['result']}")
+    if list(o["workflow"].calls) != ref["calls"]:
+        bad.append(f"step executions {o['workflow'].calls} != uninterrupted {ref['calls']}")
+    if o["live_at_end"] != 0 or o["overlap"]:
+        bad.append(f"control loops: live at end {o['live_at_end']}, overlap {o['overlap']}")
+    return bad
+
+
+@obligation(quick=400, thorough=880,
+            partitions_quick=[f"k == {k} and land_first == {lf}" for k in range(KSLOW) for lf in (True, False)],
+            partitions_thorough=[f"k == {k} and land_first == {lf} and wk == {w}" for k in range(KSLOW) for lf in (True, False)
+                                 for w in (0, 1)],
+            what="in-process stack over a store with I/O latency (environment stub: the k-th update_handler_status call of the "
+                 "scenario takes lat virtual seconds and lands before or after the wait): whatever gets released and reloaded "
+                 "around the two events, the run finishes with the result and step executions of the uninterrupted run, no "
+                 "send starts more than one control loop, none is left at the end",
+            bounds={"idle_timeout T": "1..TSLOW", "idle durations d1,d2": "0..T+1", "slow write index k": "0..KSLOW-1",
+                    "latency": "1..LATMAX", "lands": "before / after the wait", "workflow kinds": 2, "tie order": "both"})
+def ob_inproc_reload_slow_store(wk: int, T: int, d1: int, d2: int, k: int, lat: int, land_first: bool, early: bool) -> bool:
+    """
+    pre: 0 <= wk <= 1 and 1 <= T <= TSLOW and 0 <= d1 <= T + 1 and 0 <= d2 <= T + 1
+    pre: 0 <= k < KSLOW and 1 <= lat <= LATMAX
+    post: _
+    """
+    wk = concrete(wk, 0, 1)
+    T = concrete(T, 1, TSLOW)
+    d1 = concrete(d1, 0, TSLOW + 1)
+    d2 = concrete(d2, 0, TSLOW + 1)
+    k = concrete(k, 0, KSLOW - 1)
+    lat = concrete(lat, 1, LATMAX)
+    land_first = bool(land_first)
+    early = bool(early)
+    o = run_stack("inproc", T, [(d1, P1), (d1 + d2, P2)], _make(wk), _mk_event, early=early, probe_to=0,
+                  settle=T + lat + 1, slow_write=(k, lat, land_first))
+    bad = _why_slow(o, REF[("inproc", wk)])
+    _debug(f"slow wk={wk} T={T} d1={d1} d2={d2} k={k} lat={lat} land_first={land_first} early={early} hit={o['slow_hit']}", bad)
     return not bad
 
 
